@@ -112,6 +112,7 @@ type Eval struct {
 	allowedAll map[string]bool     // root modifies: whole components
 	allowedIdx map[string][]string // root modifies: single locations per component
 	safety   []string // props to tag safety obligations with (nil: none)
+	blocking []string // props to tag no-mutex-held-while-blocking obligations with
 	muTags   map[string]int
 	entry    *State
 	trace    bool
